@@ -51,8 +51,22 @@ WITNESSES = [
           '    @update\n    def lb():\n      s.o @= s.p.a + 1\n\n'
           'class Top( Component ):\n  def construct( s ):\n    s.p = InPort( Fl )\n    s.o = [ OutPort( Bits4 ) for _ in range(2) ]\n'
           '    s.l = [ Leaf() for _ in range(2) ]\n    for i in range(2):\n      s.l[i].p //= s.p\n      s.o[i] //= s.l[i].o\n'},
-  {'label': F20 + ':subcomponent:witness', 'finding': F20, 'variant': 'subcomponent', 'backends': ('yosys',),
-   'expect': ('multi-driver', 'undriven', 'output-mismatch', 'syntax-invalid'), 'features': ['finding-stream'],
+]
+
+F22 = 'F22-yosys-cast-of-compound-unparenthesised'
+WITNESSES += [
+  {'label': F22 + ':witness', 'finding': F22, 'variant': None, 'expect': ('output-mismatch',), 'backends': ('yosys',),
+   'features': ['finding-stream'],
+   'cycles': [{'.a': 3, '.b': 4, '.reset': 0}],
+   'src': 'from pymtl3 import *\n'
+          'class Top( Component ):\n  def construct( s ):\n    s.a = InPort( Bits4 )\n    s.b = InPort( Bits4 )\n    s.o = OutPort( Bits4 )\n'
+          '    @update\n    def up():\n      s.o @= s.a ^ Bits4( s.b | 1 )\n'},
+]
+
+# witnesses of defects repaired by fix: commits 06cfd35 (F20) and ad19f30 (F21): clean corpus cases now
+CORPUS += [
+  {'label': 'corpus:fixed:' + F20 + ':subcomponent', 'backends': ('verilog', 'yosys'),
+   'features': ['corpus', 'fixed-defect-shape'],
    'cycles': [{'.a[0][0]': 1, '.a[0][1]': 2, '.a[0][2]': 3, '.a[1][0]': 4, '.a[1][1]': 5, '.a[1][2]': 6, '.reset': 0}],
    'src': 'from pymtl3 import *\n'
           'class Sub( Component ):\n  def construct( s, k ):\n    s.in_ = InPort( Bits4 )\n    s.out = OutPort( Bits4 )\n'
@@ -61,8 +75,8 @@ WITNESSES = [
           '    s.o = [ [ OutPort( Bits4 ) for _ in range(3) ] for _ in range(2) ]\n'
           '    s.c = [ [ Sub( i * 3 + j ) for j in range(3) ] for i in range(2) ]\n'
           '    for i in range(2):\n      for j in range(3):\n        s.c[i][j].in_ //= s.a[i][j]\n        s.o[i][j] //= s.c[i][j].out\n'},
-  {'label': F20 + ':interface:witness', 'finding': F20, 'variant': 'interface', 'backends': ('yosys',),
-   'expect': ('multi-driver', 'undriven', 'output-mismatch', 'syntax-invalid'), 'features': ['finding-stream'],
+  {'label': 'corpus:fixed:' + F20 + ':interface', 'backends': ('verilog', 'yosys'),
+   'features': ['corpus', 'fixed-defect-shape'],
    'cycles': [{'.ifc[0][0].msg': 1, '.ifc[0][1].msg': 2, '.ifc[0][2].msg': 3, '.ifc[1][0].msg': 4, '.ifc[1][1].msg': 5, '.ifc[1][2].msg': 6,
                '.ifc[0][0].val': 0, '.ifc[0][1].val': 0, '.ifc[0][2].val': 1, '.ifc[1][0].val': 0, '.ifc[1][1].val': 0, '.ifc[1][2].val': 0, '.reset': 0}],
    'src': 'from pymtl3 import *\n'
@@ -70,8 +84,8 @@ WITNESSES = [
           'class Top( Component ):\n  def construct( s ):\n    s.ifc = [ [ GIfc( Bits4 ) for _ in range(3) ] for _ in range(2) ]\n'
           '    s.o = OutPort( Bits4 )\n    @update\n    def up():\n      s.o @= s.ifc[1][2].msg\n'
           '      for i in range(2):\n        for j in range(3):\n          s.ifc[i][j].rdy @= s.ifc[i][j].val\n'},
-  {'label': F21 + ':witness', 'finding': F21, 'variant': None, 'backends': ('verilog',),
-   'expect': ('multi-driver', 'undriven', 'output-mismatch', 'syntax-invalid'), 'features': ['finding-stream'],
+  {'label': 'corpus:fixed:' + F21, 'backends': ('verilog', 'yosys'),
+   'features': ['corpus', 'fixed-defect-shape'],
    'cycles': [{'.x': 5, '.reset': 0}],
    'src': 'from pymtl3 import *\n'
           'class Sub( Component ):\n  def construct( s ):\n    s.in0 = [ [ InPort( Bits4 ) for _ in range(3) ] for _ in range(2) ]\n'
